@@ -121,6 +121,76 @@ theorem table_valid_ising {η : Type} (mk : η → BW) (ham : η) (ops : List Is
   rw [h.2] at h1
   exact ⟨h1, h2⟩
 
+/-! ### swaps between samplers (tempering) -/
+
+/-- **One swap.** `swap_manager_and_state` exchanges the operator strings/states and nothing else: each
+sampler keeps its Hamiltonian and its own table, so tables that were valid stay valid — for their *own*
+Hamiltonians, however different the two are. -/
+theorem table_valid_after_swap {η μ : Type} (mk : η → BW) (p : HBPair (IsingS η) μ)
+    (ha : p.a.table = none ∨ p.a.table = some (mk p.a.ham))
+    (hb : p.b.table = none ∨ p.b.table = some (mk p.b.ham)) :
+    let q := p.swapSamplers
+    (q.a.table = none ∨ q.a.table = some (mk q.a.ham)) ∧
+    (q.b.table = none ∨ q.b.table = some (mk q.b.ham)) ∧
+    q.a.ham = p.a.ham ∧ q.b.ham = p.b.ham ∧ q.a.table = p.a.table ∧ q.b.table = p.b.table ∧
+    q.ma = p.mb ∧ q.mb = p.ma :=
+  ⟨ha, hb, rfl, rfl, rfl, rfl, rfl, rfl⟩
+
+/-- **Ising samplers in a tempering ladder**: after any interleaving of `set_enable_heatbath` / steps on
+either sampler with swaps (either call direction, or through `tempering_step`, accepted or not) each table
+is absent or the table of that sampler's own, unchanged Hamiltonian. -/
+theorem table_valid_ising_pair {η μ : Type} (mk : η → BW) (ha hb : η) (ma mb : μ) (ops : List (HBPairOp IsingOp)) :
+    let p := (HBPair.run (IsingS.step mk) { a := { ham := ha, table := none }, ma := ma,
+                                          b := { ham := hb, table := none }, mb := mb } ops)
+    (p.a.table = none ∨ p.a.table = some (mk ha)) ∧ (p.b.table = none ∨ p.b.table = some (mk hb)) := by
+  intro p
+  have h := HBPair.run_inv (μ := μ) (IsingS.step mk)
+    (fun s => (s.table = none ∨ s.table = some (mk s.ham)))
+    (fun s x hs => IsingS.step_valid mk s x hs) ops
+    { a := { ham := ha, table := none }, ma := ma, b := { ham := hb, table := none }, mb := mb }
+    (Or.inl rfl) (Or.inl rfl)
+  -- the Hamiltonians never move: track them separately for each side
+  have hamA : ∀ (ops : List (HBPairOp IsingOp)) (q : HBPair (IsingS η) μ),
+      (HBPair.run (IsingS.step mk) q ops).a.ham = q.a.ham ∧ (HBPair.run (IsingS.step mk) q ops).b.ham = q.b.ham := by
+    intro ops
+    induction ops with
+    | nil => intro q; exact ⟨rfl, rfl⟩
+    | cons op t ih =>
+      intro q
+      unfold HBPair.run
+      simp only [List.foldl_cons]
+      have := ih (q.step (IsingS.step mk) op)
+      unfold HBPair.run at this
+      rw [this.1, this.2]
+      cases op with
+      | left x => exact ⟨IsingS.step_ham mk q.a x, rfl⟩
+      | right x => exact ⟨rfl, IsingS.step_ham mk q.b x⟩
+      | swap => exact ⟨rfl, rfl⟩
+      | noswap => exact ⟨rfl, rfl⟩
+  have hm := hamA ops { a := { ham := ha, table := none }, ma := ma, b := { ham := hb, table := none }, mb := mb }
+  have h1 := h.1
+  have h2 := h.2
+  rw [hm.1] at h1
+  rw [hm.2] at h2
+  exact ⟨h1, h2⟩
+
+/-- **Generic samplers**: the same with `add_interaction` / `set_do_heatbath` / `diagonal_update` on either
+side; each stored table is absent or the table of that sampler's current interaction list. -/
+theorem table_valid_generic_pair {ι μ : Type} (mk : List ι → BW) (ma mb : μ) (ops : List (HBPairOp (GenOp ι))) :
+    let p := (HBPair.run (GenS.step mk) { a := GenS.init ι, ma := ma, b := GenS.init ι, mb := mb } ops)
+    (p.a.table = none ∨ p.a.table = some (mk p.a.bonds)) ∧ (p.b.table = none ∨ p.b.table = some (mk p.b.bonds)) :=
+  HBPair.run_inv (μ := μ) (GenS.step mk) (fun s => (s.table = none ∨ s.table = some (mk s.bonds)))
+    (fun s x hs => GenS.step_valid mk s x hs) ops
+    { a := GenS.init ι, ma := ma, b := GenS.init ι, mb := mb } (Or.inl rfl) (Or.inl rfl)
+
+/-- non-vacuity: two different Hamiltonians, heat-bath on both, swap: the tables stay put, the payloads move -/
+example (mk : Nat → BW) :
+    let p := HBPair.run (IsingS.step mk) ({ a := { ham := 1, table := none }, ma := "x",
+                                          b := { ham := 2, table := none }, mb := "y" } : HBPair (IsingS Nat) String)
+      [.left (.setEnableHeatbath true), .right (.setEnableHeatbath true), .swap, .left .diagonalStep]
+    p.a.table = some (mk 1) ∧ p.b.table = some (mk 2) ∧ p.ma = "y" ∧ p.mb = "x" := by
+  refine ⟨rfl, rfl, rfl, rfl⟩
+
 /-- the invariant is not vacuous and not trivially `none`: add, enable, update leaves the real table; a
 later `add_interaction` drops it, the next update rebuilds it for the longer list. -/
 example (mk : List Nat → BW) :
